@@ -30,11 +30,37 @@ func genC07(g *Gen, tier string) *Program {
 		c.Sanitize = sanMenu[0]
 		c.Flags = map[string]int{"dirtytags": 1}
 	}
+	// a fifth of the programs are about gauges (one updating task each): for them
+	// the order in which a closed scope and its replacement are delivered matters
+	wG, wU, own := 1, 1, false
+	if g.Bool(20) {
+		wG, wU, own = 3, 7, true
+	}
 	genWorkload(g, p, wlOpts{
 		tasks: [2]int{1, 3}, ops: [2]int{4, maxOps}, scopes: pick(g, 1, 2, 3),
-		wDerive: 3, wCounter: 3, wInc: 8, wClose: 4, wSleep: 1, wYield: 1, wGauge: 1, wUpd: 1, wHist: 1, wRecH: 1,
-		reacquire: 85, closer: 10, values: pick(g, posMenu, posMenu, intMenu),
+		wDerive: 3, wCounter: 3, wInc: 8, wClose: 4, wSleep: 1, wYield: 1, wGauge: wG, wUpd: wU, wHist: 1, wRecH: 1,
+		reacquire: 85, closer: 10, values: pick(g, posMenu, posMenu, intMenu), ownGauge: own,
 	})
+	if own {
+		// bystanders: tasks that request the scopes (and gauges) of another task
+		// over and over without ever updating anything - the re-request that finds
+		// the closed scope, and has to flush it, is then often not the updater's
+		nt := len(p.Tasks)
+		for ti := 0; ti < nt && len(p.Tasks) < 5; ti++ {
+			var by []Op
+			for _, op := range p.Tasks[ti] {
+				if op.K == "sub" || op.K == "tag" || op.K == "gauge" {
+					by = append(by, op)
+					if g.Bool(30) {
+						by = append(by, Op{K: "yield"})
+					}
+				}
+			}
+			if len(by) > 0 {
+				p.Tasks = append(p.Tasks, by)
+			}
+		}
+	}
 	if c.Flags["dirtytags"] == 1 {
 		for ti := range p.Tasks {
 			for oi := range p.Tasks[ti] {
@@ -94,6 +120,16 @@ func genC07(g *Gen, tier string) *Program {
 func checkC07(env *Env) []Violation {
 	ops := env.OpsBeforeTeardown()
 	out := checkC01(env) // conservation per identity with per-object obligations, no negative deltas, idle pass silent
+	// For a gauge "everything recorded is delivered" means that the reporter ends
+	// up with the last update: if a closed scope's value is delivered only after
+	// its replacement's newer one (the scope dropped first and flushed later),
+	// the reporter is left with the stale value. Every gauge of this profile has
+	// a single updating task, so C02's clauses apply as they stand.
+	for _, v := range checkC02(env) {
+		if v.Class == "stale-value" || v.Class == "lost-update" {
+			out = append(out, v)
+		}
+	}
 	ci := newCloseInfo(env, ops)
 	// probes
 	for _, r := range ops {
